@@ -86,7 +86,7 @@ fn main() {
     if args[1] == "replay" {
         let rc = match args[2].as_str() {
             "c07_strings" => strings::replay(&args[3..]),
-            "pipeline" => cpipe::replay(&args[3..]),
+            "pipeline" | "pipeline_fuzz" => cpipe::replay(&args[3..]),
             "c06_display" => c06::replay_display(&args[3..]),
             "c07_bash" => c07bash::replay(&args[3..]),
             "c11_choice" | "c15_warnings" | "c08_classify" => csem::replay(&args[2], &args[3..]),
@@ -120,6 +120,7 @@ fn main() {
     let rep = match args[1].as_str() {
         "c07_strings" => strings::run(thorough),
         "pipeline" => cpipe::run(thorough, seed),
+        "pipeline_fuzz" => cpipe::run_fuzz(thorough, seed),
         "c06_display" => c06::display(thorough),
         "c07_bash" => c07bash::run(thorough),
         "c11_choice" => csem::c11(thorough),
